@@ -173,7 +173,8 @@ def oracles(spec: dict, inputs: list[dict], r: dict, base: list) -> list[dict]:
         if path.split("/")[0] in ("tmp", "alt-tmp", "tmp-real") and "/" in path:
             if op in ("create", "mkdir", "open-w") and natural == 0 and path == top and top not in owner:
                 owner[top] = pi
-            elif owner.get(top) is not None and owner[top] != pi and natural == 0 and not flagged_iso:
+            elif owner.get(top) is not None and owner[top] != pi and natural == 0 and not flagged_iso and op in ("open-w", "create", "mkdir", "unlink", "rmdir", "rename"):
+                # destructive access only: merely looking at a peer's entry does not by itself break the property
                 if _alive_at(events, owner[top], seq):
                     if path.split("/")[-1].startswith("escaped_") and any(i.get("kind") == "escape" for i in inputs):
                         V.append(_v("isolation", "escape-report", f"proc {pi} {op} {path} at seq {seq}: the report file that escaped the per-run directory of proc {owner[top]} has the same name for every run", pi))
